@@ -31,6 +31,10 @@ func (e *Engine) VerifyFunction(fn *ssa.Function, c *Contract, panics bool, prop
 func (e *Engine) VerifyFunctionAs(fn *ssa.Function, c *Contract, panics bool, props map[string]bool, ifaceKey string) (res *FnResult) {
 	res = &FnResult{Func: e.relName(fn), Contract: c}
 	own := c
+	if strings.HasPrefix(ifaceKey, "view:") {
+		res.Func += " [view " + strings.TrimPrefix(ifaceKey, "view:") + "]"
+		ifaceKey = ""
+	}
 	if ifaceKey != "" {
 		ic := e.specs.Ifaces[ifaceKey]
 		if ic == nil {
@@ -186,6 +190,29 @@ func (e *Engine) VerifyFunctionAs(fn *ssa.Function, c *Contract, panics bool, pr
 		if !rt.wantClause(cl) {
 			continue
 		}
+		if c.SplitReturns && len(r.rets) > 1 {
+			for k, rp := range r.rets {
+				envR := env.child()
+				envR.cur, envR.old = rp.st, st
+				var rv Val
+				switch len(rp.vals) {
+				case 0:
+				case 1:
+					rv = rp.vals[0]
+				default:
+					rv = TupleV{Elems: rp.vals}
+				}
+				if fn.Signature.Results().Len() > 0 {
+					r.bindResults(envR, fn.Signature, rv)
+				}
+				for _, u := range c.Uses {
+					r.assume(rp.st, envR.useAxiom(u))
+				}
+				g := envR.EvalBool(cl.E)
+				r.oblige(rp.st, "post", fmt.Sprintf("%d@ret%d", i+1, k+1), g, fn.Pos(), "ensures "+cl.Text, cl.Tags)
+			}
+			continue
+		}
 		g := env2.EvalBool(cl.E)
 		name := fmt.Sprintf("%d", i+1)
 		r.oblige(fin, "post", name, g, fn.Pos(), "ensures "+cl.Text, cl.Tags)
@@ -263,6 +290,11 @@ func (r *FnRun) typeInvariant(v Val, t types.Type) {
 	case PSlice:
 		r.addFact(tb.And(tb.SLe(zero, x.Len), tb.SLe(x.Len, x.Cap), tb.SLt(x.Cap, lim)))
 		r.addFact(tb.ULt(x.Ptr, tb.BVU(64, 1<<47)))
+		// Go invariant: a slice with capacity has a non-nil backing array
+		r.addFact(tb.Implies(tb.SGt(x.Cap, zero), tb.Not(tb.Eq(x.Ptr, zero))))
+		if x.Elem != nil && len(r.root.knownRanges) < 16 {
+			r.root.knownRanges = append(r.root.knownRanges, [2]*Term{x.Ptr, tb.Mul(x.Cap, tb.BVI(64, r.e.sizeof(x.Elem)))})
+		}
 	case StructV:
 		if su, ok := t.Underlying().(*types.Struct); ok {
 			for i, f := range x.Fields {
